@@ -375,7 +375,10 @@ inline std::string numeric_literal_to_value(
             return fmt::format("-::std::numeric_limits<{}>::infinity()", type);
         }
 
-        return std::string{value};
+        // explicit cast is required because the value is used in braced
+        // initialization where, for example, integer literal which is not
+        // exactly representable by floating-point type is a narrowing error
+        return fmt::format("static_cast<{}>({})", type, value);
     }
 
     return utils::to_integer_literal(value, type);
